@@ -19,7 +19,11 @@ Relations ==
        <<"kpc Gyr^-1", "pc Myr^-1", 1, 0>>, <<"km s^-1", "m s^-1", 1, 3>>, <<"km s^-1", "cm s^-1", 1, 5>>,
        <<"g cm^-3", "kg m^-3", 1, 3>>, <<"cm^-3", "m^-3", 1, 6>>, <<"cm^2", "m^2", 1, -4>>,
        <<"kpc^2", "pc^2", 1, 6>>, <<"erg s^-1", "J s^-1", 1, -7>>, <<"Msol yr^-1", "Msol Myr^-1", 1, 6>>,
-       <<"cm^3 s^-1", "m^3 s^-1", 1, -6>>, <<"Myr^-1", "Gyr^-1", 1, 3>> >>
+       <<"cm^3 s^-1", "m^3 s^-1", 1, -6>>, <<"Myr^-1", "Gyr^-1", 1, 3>>,
+       \* the order of the factors of a compound unit does not matter (the last factor may or may not carry an exponent)
+       <<"s^-1 kg", "kg s^-1", 1, 0>>, <<"s^-1 km", "km s^-1", 1, 0>>, <<"m^-3 kg", "kg m^-3", 1, 0>>,
+       <<"m s^-1 kg", "kg m s^-1", 1, 0>>, <<"s^-2 m^-1 kg", "kg m^-1 s^-2", 1, 0>>, <<"Gyr^-1 kpc", "kpc Gyr^-1", 1, 0>>,
+       <<"yr^-1 Msol", "Msol yr^-1", 1, 0>>, <<"cm^-3 g", "g cm^-3", 1, 0>>, <<"s^-1 cm^-3 erg", "erg cm^-3 s^-1", 1, 0>> >>
 
 \* "compound units equal the product of their parts": <<compound, <<part, exponent>>, ...>> - the SI value of one
 \* compound unit is the product of the SI values of its parts raised to their exponents
@@ -28,7 +32,9 @@ Products ==
        <<"Msol yr^-1", <<"Msol", 1>>, <<"yr", -1>> >>, <<"erg cm^-3 s^-1", <<"erg", 1>>, <<"cm", -3>>, <<"s", -1>> >>,
        <<"km s^-1", <<"km", 1>>, <<"s", -1>> >>, <<"cm^3 s^-1", <<"cm", 3>>, <<"s", -1>> >>,
        <<"Msol pc^-2", <<"Msol", 1>>, <<"pc", -2>> >>, <<"kg m^-1 s^-2", <<"kg", 1>>, <<"m", -1>>, <<"s", -2>> >>,
-       <<"angstrom^2", <<"angstrom", 2>> >>, <<"Myr^-1", <<"Myr", -1>> >> >>
+       <<"angstrom^2", <<"angstrom", 2>> >>, <<"Myr^-1", <<"Myr", -1>> >>,
+       <<"s^-1 kg", <<"s", -1>>, <<"kg", 1>> >>, <<"m s^-1 kg", <<"m", 1>>, <<"s", -1>>, <<"kg", 1>> >>,
+       <<"cm^-3 g", <<"cm", -3>>, <<"g", 1>> >>, <<"pc^-2 Msol", <<"pc", -2>>, <<"Msol", 1>> >> >>
 \* "converting a value to SI and back returns it": <<unit, mantissa, exponent>> - the value mantissa x 10^exponent
 RoundTrips ==
     << <<"kpc", 25, -1>>, <<"pc", 1, 0>>, <<"Gyr", 137, -1>>, <<"Myr", 3, 0>>, <<"yr", 1, 6>>, <<"Msol", 2, 5>>, <<"g cm^-3", 1, -24>>,
